@@ -181,6 +181,17 @@ def attr_path(I, a, n):
     return path_of_meta(meta)
 
 
+@model(r"^syn::Meta::require_(name_value|list|path_only)$")
+def meta_require(I, a, n):
+    m = unbox(a[0])
+    L = I.prog.layout
+    kind = L.syn_enums["Meta"][m.variant]
+    want = {"name_value": "NameValue", "list": "List", "path_only": "Path"}[meth(n).replace("require_", "")]
+    if kind != want:
+        return ERR(Opaque("syn::Error", "expected %s" % {"NameValue": "`=`", "List": "`(`", "Path": "path only"}[want]))
+    return OK(Ref(m.fields, 0))
+
+
 @model(r"^syn::Meta::path$")
 def meta_path(I, a, n):
     return path_of_meta(a[0])
